@@ -1,0 +1,7 @@
+//go:build verif
+
+package proxy
+
+// VerifC07EscapedLen exposes escapedLen (the cut of the escaped path that goes with a strip option) to the
+// verification harness.
+func VerifC07EscapedLen(s string, n int) int { return escapedLen(s, n) }
